@@ -53,6 +53,8 @@ func alphabetIndexes() []m.Op {
 		updID("a", u2, "inplace", "xy", "s"),
 		m.Op{K: "deleteById", Coll: "a", Id: u1},
 		m.Op{K: "delete", Q: qOn("a", m.Leaf("gt", "xy", int64(1)))},
+		// one bulk update over two indexed fields of which the first document already holds one value
+		m.Op{K: "update", Q: qOn("a", nil), Set: setMap("x", int64(1), "xy", int64(7))},
 	)
 	return out
 }
